@@ -219,6 +219,182 @@ def r12_5(run, model, mir):
     run.ob("R12.5", "build_tree|error range is a token's range", ok, site(PARSER, bt.node["sp"]), "current token's range, else the last token's range" if ok else "error range is computed differently")
 
 
+def r12_10(run, model):
+    run.rule("R12.10", "the cursor and the tree builder skip the same tokens: the tokens Input steps over without an Advance event, and the "
+                       "tokens build_tree attaches without one, are decided by TokenKind::is_trivia alone - in parser/input.rs every "
+                       "decision about a token kind (conditions and boolean results, helpers of the file followed one level) uses no other "
+                       "predicate and names no token but end-of-input, and build_tree's trailing loop does the same")
+    INPUT = "crates/parser/src/input.rs"
+    fns = {f.name: f for f in model.fns(INPUT) if f.body is not None}
+    ALLOWED = {"is_trivia", "len", "get", "map_or", "map", "is_some", "is_none"}
+
+    def offences(node, depth=0):
+        out = []
+        for x in S.walk(node):
+            if x["k"] == "Macro" and x["name"] == "T" and S.norm_ws(x.get("tokens") or "") != "eof":
+                out.append(f"names the token `{x.get('tokens')}`")
+            if x["k"] == "Macro" and x["name"] == "matches":
+                out.append("classifies kinds with matches!")
+            if x["k"] in ("Call", "MethodCall"):
+                cn = S.callee_name(x)
+                if cn in ALLOWED:
+                    continue
+                if cn in fns and depth < 2:
+                    out += [f"{cn}: {o}" for o in offences(fns[cn].body, depth + 1)]
+                elif cn not in fns:
+                    out.append(f"calls `{cn}`")
+        return out
+    n = 0
+    for name, f in sorted(fns.items()):
+        deciders = [c["cond"] for c in S.walk(f.body) if c["k"] in ("If", "While")]
+        if (f.node.get("ret") or "").strip() == "bool" and f.body["stmts"] and f.body["stmts"][-1]["k"] == "ExprStmt":
+            deciders.append(f.body["stmts"][-1]["expr"])
+        for d in deciders:
+            n += 1
+            off = offences(d)
+            run.ob("R12.10", f"Input::{name}|decision #{deciders.index(d) + 1} rests on is_trivia alone", not off, site(INPUT, d["sp"]),
+                   f"`{S.norm_ws(run.facts.text(INPUT, d['sp']))[:60]}`" + (f": {off[0]}" if off else ""),
+                   witness="with lexer Error tokens skipped by the cursor but not by build_tree, the builder falls one token behind per stray `$`: "
+                           "the last tokens never enter the tree and it no longer spells the input")
+    run.floor("token-kind decisions in parser/input.rs", n, 8)
+    bt = model.fn("build_tree", PARSER)
+    loops = [w for w in S.find(bt.body, "While") if w["cond"]["k"] == "Let"]
+    ok = False
+    for w in loops:
+        conds = [c["cond"] for c in S.find(w["body"], "If")]
+        if conds and any("is_trivia" in S.norm_ws(run.facts.text(PARSER, c["sp"])) for c in conds):
+            bad = [c for c in conds if any(x["k"] == "Macro" and x["name"] == "T" and S.norm_ws(x.get("tokens") or "") != "eof" for x in S.walk(c)) or
+                   any(x["k"] in ("Call", "MethodCall") and S.callee_name(x) not in ALLOWED for x in S.walk(c))]
+            ok = not bad
+    run.ob("R12.10", "build_tree|tokens attached without an event are the trivia", ok, site(PARSER, bt.node["sp"]),
+           "the trailing loop stops at the first token that is not trivia (or at end of input)" if ok else "the trailing loop uses another notion of skippable token")
+
+
+def _marker_paths(f):
+    """abstract interpretation of one grammar function: every marker obtained from p.open()/open_before() is followed along all
+    paths; returns {marker: set of close counts seen at an exit of the function} for markers that do not escape"""
+    exits = []
+
+    def closes_of(c):
+        return c["k"] == "MethodCall" and c["method"] == "close" and c["args"] and c["args"][0]["k"] == "Path" and len(c["args"][0]["segs"]) == 1
+
+    def ev(node, states):
+        """states: set of frozenset((marker, count)); returns the states that fall through"""
+        if node is None or not states:
+            return states
+        k = node["k"]
+        if k == "Block":
+            for st in node["stmts"]:
+                states = ev(st, states)
+            return states
+        if k == "Local":
+            states = ev(node.get("init"), states)
+            init = node.get("init")
+            if init is not None and node["pat"]["k"] == "PIdent" and init["k"] == "MethodCall" and init["method"] in ("open", "open_before"):
+                nm = node["pat"]["name"]
+                states = {frozenset({(m, c) for m, c in st if m != nm} | {(nm, 0)}) for st in states}
+            if node.get("else") is not None:
+                ev(node["else"], states)   # let-else: the else block diverges
+            return states
+        if k == "ExprStmt":
+            return ev(node["expr"], states)
+        if k == "If":
+            states = ev(node["cond"], states)
+            a = ev(node["then"], states)
+            b = ev(node["else"], states) if node.get("else") is not None else states
+            return a | b
+        if k == "Match":
+            states = ev(node["scrut"], states)
+            out = set()
+            for arm in node["arms"]:
+                out |= ev(arm["body"], states)
+            return out
+        if k in ("While", "Loop", "For"):
+            if k == "While":
+                states = ev(node["cond"], states)
+            once = ev(node["body"], states)
+            twice = ev(node["body"], once)
+            return states | once | twice
+        if k == "Return":
+            states = ev(node.get("expr"), states)
+            exits.extend(states)
+            return set()
+        if k in ("Break", "Continue"):
+            return states
+        if k == "Closure":
+            return states
+        if k == "Try":
+            states = ev(node.get("expr"), states)
+            exits.extend(states)
+            return states
+        if k == "MethodCall":
+            states = ev(node["recv"], states)
+            for a in node["args"]:
+                states = ev(a, states)
+            if closes_of(node):
+                nm = node["args"][0]["segs"][0]
+                states = {frozenset((m, min(c + 1, 2)) if m == nm else (m, c) for m, c in st) for st in states}
+            elif node["method"] == "pop" and node["recv"]["k"] == "Field" and node["recv"].get("member") == "events":
+                # the Open event is taken back: the markers still open on this path are abandoned, which settles them like a close
+                states = {frozenset((m, 1) if c == 0 else (m, c) for m, c in st) for st in states}
+            return states
+        if k == "Macro":
+            if node["name"] in ("panic", "unreachable", "todo", "unimplemented"):
+                return set()
+            return states
+        for v in node.values():
+            if isinstance(v, dict) and "k" in v:
+                states = ev(v, states)
+            elif isinstance(v, list):
+                for x in v:
+                    if isinstance(x, dict) and "k" in x:
+                        states = ev(x, states)
+        return states
+    end = ev(f.body, {frozenset()})
+    exits.extend(end)
+    # a marker that is handed to anything but close (or is the function's result) is somebody else's to close
+    escaped = set()
+    for c in S.walk(f.body):
+        if c["k"] in ("Call", "MethodCall") and not closes_of(c):
+            for a in c["args"]:
+                if a["k"] == "Path" and len(a["segs"]) == 1:
+                    escaped.add(a["segs"][0])
+        if c["k"] == "Struct":
+            escaped |= S.idents(c)
+        if c["k"] == "Return" and c.get("expr") is not None:
+            escaped |= {i for i in S.idents(c["expr"]) if not any(closes_of(x) for x in S.walk(c["expr"]))}
+    last = f.body["stmts"][-1] if f.body["stmts"] else None
+    if last is not None and last["k"] == "ExprStmt" and last["expr"]["k"] == "Path":
+        escaped |= S.idents(last["expr"])
+    out = {}
+    for st in exits:
+        for m, cnt in st:
+            if m not in escaped:
+                out.setdefault(m, set()).add(cnt)
+    return out
+
+
+def r12_11(run, model):
+    run.rule("R12.11", "the event stream is balanced: in every grammar function each marker taken with p.open()/p.open_before() has been "
+                       "handed to p.close exactly once at every exit of the function (path analysis over if/match/loops/early returns; a "
+                       "marker passed on to another function is that function's) - a marker closed twice pushes two Close events for one "
+                       "Open and the tree builder finishes a node it never started")
+    n = 0
+    for rel in sorted(r for r in model.src_files() if r.startswith("crates/parser/src/")):
+        for f in model.fns(rel):
+            if f.body is None or not any(c["k"] == "MethodCall" and c["method"] in ("open", "open_before") for c in S.walk(f.body)):
+                continue
+            res = _marker_paths(f)
+            for m, counts in sorted(res.items()):
+                n += 1
+                ok = counts == {1}
+                run.ob("R12.11", f"{f.name}|marker `{m}` is closed exactly once on every path", ok, site(rel, f.node["sp"]),
+                       f"close counts at the exits: {sorted(counts)}" + ("" if ok else (" (2 = more than once)" if 2 in counts else " (0 = never closed on some path)")),
+                       witness="|_| 0 or |1| 2: the error branch closes the parameter's marker and falls through to the normal close; "
+                               "rowan's builder panics in finish_node (Option::unwrap on None)")
+    run.floor("markers followed through the grammar", n, 40)
+
+
 def run(run, model):
     mir = Mir(run.facts)
     run.try_rule(r12_1, model)
@@ -232,6 +408,8 @@ def run(run, model):
     run.try_rule(c04.r04_7, model, ("crates/lexer/src/lib.rs", "crates/parser/src/input.rs", "crates/parser/src/parser.rs"))
     run.try_rule(r12_7, model)
     run.try_rule(r12_9, model)
+    run.try_rule(r12_10, model)
+    run.try_rule(r12_11, model)
     # R12.3: no entropy in lexer / parser
     run.rule("R12.3", "lexing and parsing are deterministic: no hash-ordered iteration and no entropy source in the lexer/parser/cst/ast crates")
     bad = [c for c in mir.calls if c["file"].startswith(("crates/lexer/src", "crates/parser/src")) and re.search(r"std::collections::Hash(Map|Set)|RandomState|SystemTime|Instant::now|std::env::", c["callee"])]
